@@ -231,6 +231,47 @@ class CFG:
             return True     # b unreachable
         return a in self._dom[b]
 
+    def _postdom(self):
+        if self._pdom is None:
+            END = 'END'
+            succ = {n: set(v) for n, v in self.pred.items()}   # reversed
+            pred = {n: set(v) for n, v in self.succ.items()}
+            succ[END] = {EXIT, RAISE}
+            pred[END] = set()
+            pred.setdefault(EXIT, set()).add(END)
+            pred.setdefault(RAISE, set()).add(END)
+            self._pdom = self._compute_dom(succ, pred, END)
+        return self._pdom
+
+    def control_deps(self, stmt):
+        """Branching statements (if / for / while headers) the execution of
+        `stmt` is control dependent on, transitively: a branch has a
+        successor from which `stmt` is unavoidable, and another way out
+        that avoids it (an early `return` inside a loop makes the code
+        after the loop depend on the loop and on the test of the return)."""
+        pdom = self._postdom()
+        out, todo, seen = [], [stmt], {stmt}
+        while todo:
+            s = todo.pop()
+            if s not in pdom:
+                continue
+            for b in self.succ:
+                if b in (ENTRY, EXIT, RAISE) or len(self.succ[b]) < 2 or \
+                        b in seen:
+                    continue
+                if not isinstance(b, (ast.If, ast.For, ast.AsyncFor,
+                                      ast.While)):
+                    continue
+                strictly = b is not s and s in pdom.get(b, ())
+                if strictly:
+                    continue
+                if any(x is s or s in pdom.get(x, ())
+                       for x in self.succ[b]):
+                    seen.add(b)
+                    out.append(b)
+                    todo.append(b)
+        return out
+
     def reaches(self, src, dst, avoiding=()):
         """Is there a path src -> dst that avoids the given nodes?"""
         avoiding = set(avoiding)
